@@ -51,6 +51,9 @@ def showRes : Res → String
 
 def swissnum : Tahoe.Http.Bytes := [115, 119]
 
+/-- the twin servers of the C31 harness both have the all-zero nodeid -/
+def zeroNode : State := { myNodeid := List.replicate 20 0 }
+
 def runOps (st : State) (acc : List String) : List String → Option (List String × State)
   | [] => some (acc.reverse, st)
   | tok :: rest =>
@@ -93,13 +96,13 @@ def showRtwArgs (a : RtwArgs) : String :=
   (if shares.isEmpty then "-" else ";".intercalate shares) ++ "@" ++ rv
 
 def handle : List String → String
-  | "hist" :: ops => match runOps {} [] ops with
+  | "hist" :: ops => match runOps zeroNode [] ops with
     | none => "bad-op"
     | some (outs, st) => " ".intercalate outs ++ " || " ++ showState st
-  | "dhist" :: ops => match runWith directStep {} [] ops with
+  | "dhist" :: ops => match runWith directStep zeroNode [] ops with
     | none => "bad-op"
     | some (outs, st) => " ".intercalate outs ++ " || " ++ showState st
-  | "hhist" :: ops => match runWith handledStep {} [] ops with
+  | "hhist" :: ops => match runWith handledStep zeroNode [] ops with
     | none => "bad-op"
     | some (outs, st) => " ".intercalate outs ++ " || " ++ showState st
   | ["read", d, off, len] =>
